@@ -574,6 +574,7 @@ pub fn run_backlog(id: usize, rng: &mut Rng) -> String {
     let conns = if id % 40 == 17 { 300 } else { *rng.pick(&[1usize, 1, 2, 6, 12, 20]) };
     let per = if conns <= 2 { rng.range(9, 30) } else { rng.range(1, 3) };
     let take = *rng.pick(&[0usize, 0, 1, 3]);
+    let badver = rng.chance(1, 3);
     let ((queued, answered, taken, base, after_drop, after, left, refused), rep) = sched::run(&cfg, move || {
         let live = || sched::threads().iter().filter(|(n, st)| (n.starts_with("task_pool.rs") || n.starts_with("lib.rs")) && !matches!(st, TState::Finished)).count();
         let base = live();
@@ -584,6 +585,12 @@ pub fn run_backlog(id: usize, rng: &mut Rng) -> String {
         let mut queued = 0usize;
         for c in 0..conns {
             if let Ok(s) = verif_rt::net::TcpStream::connect(addr) {
+                // now and then a connection opens with a request in a version the server does not
+                // speak (refused with 505, never queued): its thread is reclaimed like the others
+                if badver && c % 2 == 0 {
+                    let mut w = &s;
+                    let _ = w.write(b"GET /v HTTP/2.0\r\nHost: x\r\n\r\n");
+                }
                 for k in 0..per {
                     let mut w = &s;
                     let _ = w.write(format!("GET /r{} HTTP/1.1\r\nHost: x\r\n\r\n", c * 100 + k).as_bytes());
